@@ -100,6 +100,11 @@ def c12(work, tier, seed):
                                 c2 = dict(cfg, template=["{{ username }}@corp.example", "CORP\\{{ username }}"][len(scripts) % 2])
                             scripts.append({"id": "cn%05d" % len(scripts), "kind": "connect", "cfg": c2, "session": session, "param": param, "user": user, "peerIP": peer, "xff": xff,
                                             "replay": session == "authed" and sel != "signed"})
+    # signed selection: the same query token inside the verifier's clock-skew allowance and, 15 s later, outside it
+    # (these scripts wait; they come first so that they run alongside the others)
+    for store in ("cookie", "file"):
+        scripts.insert(0, {"id": "cn%05d" % (90000 + len(scripts)), "kind": "connect", "cfg": base(store, "signed", [["H1", ":", "PA"], ["H1", ":", "PB"]], False), "session": "authed", "param": "qtok-ageing",
+                           "user": "user1", "peerIP": "", "xff": "", "replay": False})
     # sessions that are not logged in are exercised right after logged-in ones were served on the same gateway (what a
     # request is answered depends on its own session only): interleave them per configuration
     bycfg = {}
